@@ -105,6 +105,9 @@ func vHas(s []int, e int) bool {
 // ARBITRARY permutation (every permutation is explored, so what holds here holds for every seed).
 func vC16Lottery(n int, topUp bool) {
 	quota, perAuthor := 3, 2
+	if n == 4 {
+		quota, perAuthor = 1, 1 // four candidates (thorough tier): 24 permutations per draw, smaller shard parameters
+	}
 	if topUp {
 		quota, perAuthor = 1, 1 // the top-up pass multiplies the permutations: smaller shard parameters
 		if vThorough() {
@@ -199,7 +202,7 @@ func vC16Lottery(n int, topUp bool) {
 	vCover("end")
 }
 
-//verif:obligation C16.a tier=quick bounds=1-shard,candidates<=3(quick)/4(thorough),any-author-subset,1-2-flips-per-author,short-quota-1..3,rand.Perm=every-permutation covers=flips,noflips,placeholder,end
+//verif:obligation C16.a tier=quick bounds=1-shard,candidates<=3:any-author-subset,1-2-flips-per-author,short-quota-1..3;thorough-adds-4-candidates-with-1-flip-per-author-and-quota-1;rand.Perm=every-permutation covers=flips,noflips,placeholder,end
 func H_C16a() {
 	max := 3
 	if vThorough() {
